@@ -63,6 +63,7 @@ def run(ctx) -> Result:
     entries += [proj.method(K, "get_kemeny_score"), proj.method(OP, "parcons_partition"),
                 proj.method(OP, "parfront_partition"), proj.method(OP, "consistent_with")]
     entries += [m for m in PBA.methods.values()]
+    base_entries = list(entries)
     if ctx.thorough:
         for f in proj.all_functions():
             if f not in entries and f.cls is not None and f.cls.name not in DATA_CLASSES and f.cls.name != "Consensus":
@@ -77,6 +78,8 @@ def run(ctx) -> Result:
             if prm.arg in ("self", "cls"):
                 continue
             t = env.var_type(prm.arg)
+            if f not in base_entries and t.name == "ndarray":
+                continue        # internal kernels receive accumulators / work arrays they are meant to fill
             if t.name not in INPUT_PARAM_TYPES and not (t.name in ("List", "Set", "Dict") and t.args and t.args[0].name in INPUT_PARAM_TYPES):
                 continue
             hits = sorted(r for r in s.mut if r[0] == prm.arg)
